@@ -90,7 +90,7 @@ Proof.
      | Some _ => Some (s, d)
      | None =>
        if negb (has_next d) then None else
-       match rr_next (pool s) d with
+       match rr_next (c_alg c) (pool s) d with
        | None => Some (crash s, d)
        | Some (p', d', None) => Some (s <| pool := p' |>, d')
        | Some (p', d', Some pl) =>
@@ -129,7 +129,7 @@ Proof.
       2: { inversion Hst; subst. simpl in Hc1. discriminate. }
       destruct (Hf df eq_refl) as [k [dm [Ha [Hg [Hs1 [Hi1 [Hc2 [Hn1 [Hn2 [Hn3 [Hdd [Hcw Hgc]]]]]]]]]]]].
       rewrite Ha in Hst.
-      destruct (rr_scan (length (pool s)) 0 (pool s) (a_next_cu df) k dm) as [[p' [pl|]]|] eqn:Esc.
+      destruct (rr_scan (length (pool s)) 0 (pool s) _ k dm) as [[p' [pl|]]|] eqn:Esc.
       + inversion Hst; subst s1 d1; clear Hst.
         destruct (rr_scan_ok _ _ _ _ _ _ _ _ Esc) as [Hk [Hdm Hpl]].
         split; [|split; [simpl; auto|split; reflexivity]].
@@ -516,10 +516,10 @@ Proof.
     + eapply IHfuel; [|eauto|eauto]. eapply pool_set_nth; eauto. eapply reserve_inv; eauto.
 Qed.
 
-Lemma rr_next_pool : forall cfgs p d p' d' r,
-  PoolInv cfgs p -> DemOK d -> rr_next p d = Some (p', d', r) -> PoolInv cfgs p' /\ DemOK d'.
+Lemma rr_next_pool : forall cfgs alg p d p' d' r,
+  PoolInv cfgs p -> DemOK d -> rr_next alg p d = Some (p', d', r) -> PoolInv cfgs p' /\ DemOK d'.
 Proof.
-  intros cfgs p d p' d' r HP [Ha Hr] H. unfold rr_next in H.
+  intros cfgs alg p d p' d' r HP [Ha Hr] H. unfold rr_next in H.
   assert (Hf : forall df, (match a_cur d with
                     | Some _ => Some d
                     | None => match a_rest d with
@@ -550,9 +550,9 @@ Proof.
   assert (H1 : PoolInv cfgs (pool s1) /\ DemOK d1).
   { destruct (cur_wg d); [inversion Est; subst; auto|].
     destruct (negb (has_next d)); [discriminate|].
-    destruct (rr_next (pool s) d) as [[[p' df] [pl|]]|] eqn:En.
-    - inversion Est; subst. destruct (rr_next_pool _ _ _ _ _ _ HP HD En). split; simpl; auto.
-    - inversion Est; subst. destruct (rr_next_pool _ _ _ _ _ _ HP HD En). split; simpl; auto.
+    destruct (rr_next (c_alg c) (pool s) d) as [[[p' df] [pl|]]|] eqn:En.
+    - inversion Est; subst. destruct (rr_next_pool _ _ _ _ _ _ _ HP HD En). split; simpl; auto.
+    - inversion Est; subst. destruct (rr_next_pool _ _ _ _ _ _ _ HP HD En). split; simpl; auto.
     - inversion Est; subst. split; simpl; auto. }
   destruct H1 as [HP1 HD1].
   destruct (crashed s1); [inversion H; subst; auto|].
